@@ -62,6 +62,13 @@ Definition gen_keys_at_render (keys : list bytes) : list bytes :=
   if negb (memb hdr_user_agent k3) && negb (memb hdr_x_mailer k3)
   then k3 ++ [hdr_user_agent; hdr_x_mailer] else k3.
 
+(* what follows the address fields: Content-Type of the outermost multipart, or the two part headers
+   of the single body part written at depth 0 *)
+Definition tail_fields (multi single : bool) : list bytes :=
+  if multi then [hdr_content_type]
+  else if single then [hdr_content_transfer_enc; hdr_content_type]
+  else [].                                        (* file-only messages: map order, not modelled *)
+
 Definition rerender_fields (st : mstate) (has_from has_to has_cc : bool) : list bytes :=
   let np := length (m_parts st) in
   let na := length (m_atts st) in
@@ -73,9 +80,7 @@ Definition rerender_fields (st : mstate) (has_from has_to has_cc : bool) : list 
   ++ (if has_from then [hdr_from] else [])
   ++ (if has_to then [hdr_to] else [])
   ++ (if has_cc then [hdr_cc] else [])
-  ++ (if has_mixed || has_related || has_alt then [hdr_content_type]
-      else if Nat.eqb np 1 then [hdr_content_transfer_enc; hdr_content_type]
-      else []).                                   (* file-only messages: map order, not modelled *)
+  ++ tail_fields (has_mixed || has_related || has_alt) (Nat.eqb np 1).
 
 (* parse, then the field names of the re-render *)
 Definition parse_and_rerender_fields (fnof : bytes -> outcome bytes) (legacy : bool) (t : top)
